@@ -427,6 +427,21 @@ func streamCore(o *Out, rng *rand.Rand, thorough bool, _ []string) {
 			o.count("long-constant")
 		}
 	}
+	// large payloads: a small reference document and many samples with large deltas, so that the decompressed payload is
+	// several times the reader's buffer sizes (4 KiB bufio, 512-byte document fast paths)
+	for k, mc := range [][2]int{{3, 600}, {2, 1100}, {6, 350}} {
+		m, cnt := mc[0], mc[1]
+		var hs []string
+		for j := 0; j < cnt; j++ {
+			kids := []*Node{}
+			for i := 0; i < m; i++ {
+				kids = append(kids, &Node{Key: fmt.Sprintf("m%d", i), Tag: 0x12, Raw: u64(uint64(rng.Int63() - rng.Int63()))})
+			}
+			hs = append(hs, hx(docBytes(kids)))
+		}
+		run(o, fmt.Sprintf("core %s %d | %s", ctors[k%len(ctors)], cnt, strings.Join(hs, " ")))
+		o.count("large-payload")
+	}
 	// random schemas
 	ncases := 600
 	if thorough {
